@@ -226,6 +226,17 @@ def run(prog, ctx):
               "no parameter outside the key influences the cached weights",
               "parameters %s influence the cached weights but are not part of the cache key" % infl)
 
+    # the cached weights also depend on the instance's slice / container settings (init-only attributes, not part of the key): the
+    # table therefore belongs to the instance -- created in a constructor, never a class-level (shared) dictionary
+    gr_ = prog.cls("Grid.GlobalRombergGrid")
+    shared = [c_ for c_ in gr_.mro if "weight_cache" in c_.class_attrs]
+    made = [f_ for c_ in gr_.mro for f_ in c_.methods.values() if f_.name == "__init__"
+            and any(s_.attr == "weight_cache" and s_.kind == "plain" for s_ in R.self_stores(f_))]
+    ctx.check(not shared and bool(made), "C11.D3", "Grid.GlobalRombergGrid::cache-per-instance", gr_.methods["__init__"].loc() if "__init__" in gr_.methods else cw.loc(),
+              "the weight cache is created per instance in the constructor",
+              "the weight cache of GlobalRombergGrid is %s: grids with different slice grouping / slice version / container version share cached "
+              "weights, although these settings are not part of the key" % ("a class attribute of %s" % shared[0].name if shared else "not created in a constructor"))
+
     # ------------------------------------------------------------------ D5 / D6
     check_memo_invalidation(prog, ctx)
     check_freshness(prog, ctx)
